@@ -337,6 +337,13 @@ Theorem C18_formatState_hex_ambiguous_refuted :
 Proof. exact formatState_hex_ambiguous_refuted. Qed.
 Print Assumptions C18_formatState_hex_ambiguous_refuted.
 
+Theorem C18_resize_exposes_stale_tail_refuted :
+  wf st_dirty /\ wf st_cleaned /\ abs st_dirty = abs st_cleaned /\ eqS st_dirty st_cleaned = true
+  /\ abs (resize st_dirty 20) <> resize_spec (abs st_dirty) 20
+  /\ eqS (resize st_dirty 20) (resize st_cleaned 20) = false.
+Proof. exact resize_exposes_stale_tail_refuted. Qed.
+Print Assumptions C18_resize_exposes_stale_tail_refuted.
+
 Theorem C18_parse_octal_22_digits_refuted :
   parseBitVector (list_ascii_of_string "o0000000000000000000000") = None
   /\ parseBitVector (list_ascii_of_string "66o1234567012345670123456") = None
